@@ -304,7 +304,7 @@ let run_build (scale : string) (flags : string) (calls : string) : string =
            | M.Ok b' -> b := b'; cum := !cum + int_of_string d; marks := !cum :: !marks; emit (pr "L:0:%d" (size ()))
            | r -> emit (pr "L:%s:%d" (show_res_code (fun _ -> "0") r) (size ())))
         | ["H"; d] ->
-          (match M.hold_position_for !b (z_of_string d) with
+          (match M.hold_fast !b (z_of_string d) with
            | M.Ok b' -> b := b'; cum := !cum + int_of_string d; marks := !cum :: !marks; emit (pr "H:0:%d" (size ()))
            | r -> emit (pr "H:%s:%d" (show_res_code (fun _ -> "0") r) (size ())))
         | ["F"] ->
@@ -326,7 +326,7 @@ let run_rth2traj (w : string list) : string =
               M.re_target = (q_of_hex tx, q_of_hex ty); M.re_altitude = q_of_hex alt;
               M.re_pre_delay = fnum_of_hex pre; M.re_post_delay = fnum_of_hex post;
               M.re_neck = q_of_hex neck; M.re_neck_duration = fnum_of_hex neckd } in
-    (match M.rth_to_trajectory e (vec4_of_hex sx sy sz sw) with
+    (match M.rth_to_trajectory_fast e (vec4_of_hex sx sy sz sw) with
      | M.Ok bytes ->
        let dur = (match M.traj_init bytes with
            | M.Ok tr -> show_res_code string_of_z (M.total_duration_msec tr) | _ -> "?") in
